@@ -45,5 +45,7 @@ func (f *EchoStreamInputStream) Call(s *slip.Scope, args slip.List, depth int) s
 	if !ok {
 		slip.TypePanic(s, depth, "echo-stream", args[0], "echo-stream")
 	}
-	return es.input.(slip.Object)
+	obj, _ := es.input.(slip.Object) // nil once the stream is closed
+
+	return obj
 }
